@@ -9,8 +9,8 @@ import Toodee.Proofs.HistoryLemmas
   and calls rejected with a panic — in both build modes:
   * the shape invariant holds (`data.len() = num_cols*num_rows`, both dimensions zero or neither);
   * `rows()`, `cells()` and every `col(c)` report lengths `num_rows`, `num_cols*num_rows`, `num_rows`;
-  * for the structural operations and the swap / fill / flip primitives the array's rows-of-cells (`TD.grid`) are those of the
-    plain model `gstep` driven by the same operation (the remaining in-place algorithms are specified cell-wise by C13–C17).
+  * for every operation the array's rows-of-cells (`TD.grid`) are those of the plain model `gstep` driven by the same operation
+    (`gstep` leaves the result open only for iterator scripts that panic or lie about their length, C11).
   This is the composition of the per-operation theorems C06, C07, C11, C13–C17.
 -/
 namespace Toodee
@@ -98,12 +98,12 @@ theorem C01_step_refines (m : Mode) (t : TD α) (h : t.Inv) (op : HOp α) (hop :
   | swapCols c1 c2 => exact fin _ (hs_ref_swapCols m t h c1 c2)
   | flipRows => exact fin _ (hs_ref_flipRows m t h)
   | flipCols => exact fin _ (hs_ref_flipCols m t h)
-  | fromVec c r v => cases hg
-  | swapDimensions => cases hg
-  | swap c1 r1 c2 r2 => cases hg
-  | copyFromSlice src => cases hg
-  | translate mc mr => cases hg
-  | sortByRow le row => cases hg
-  | sortByCol le col => cases hg
+  | fromVec c r v => exact fin _ (hs_ref_fromVec m t c r v)
+  | swapDimensions => exact fin _ (hs_ref_swapDimensions m t h)
+  | swap c1 r1 c2 r2 => exact fin _ (hs_ref_swap m t h c1 r1 c2 r2)
+  | copyFromSlice src => exact fin _ (hs_ref_copyFromSlice m t h src)
+  | translate mc mr => exact fin _ (hs_ref_translate m t h mc mr)
+  | sortByRow le row => exact fin _ (hs_ref_sortByRow m t h le row)
+  | sortByCol le col => exact fin _ (hs_ref_sortByCol m t h le col)
 
 end Toodee
